@@ -1334,7 +1334,7 @@ def run(ctx, rep):
     rep.rule('C19.N', "tensor-only torch functions are never applied to a plain Python number in the builders")
     rep.not_decided += ["finiteness of density and gradient at the initial point", "pairwise option coverage at run time", "plugins"]
     from props import c19_ids, c19_flow
-    steps = ((check_types_and_keys, 'C19.K'), (check_jacobians, 'C19.J'), (check_jacobian_terms_are_evaluable, 'C19.J'), (check_jacobians_are_not_stacked_on_skipped_transforms, 'C19.J'), (check_make_unconstrained, 'C19.U'), (check_fixed_parameters_stay_fixed, 'C19.U'), (check_tree_initial_values, 'C19.U'), (check_helper_objects_are_built_alike, 'C19.U'), (check_unconstraining_covers_the_configuration, 'C19.U'), (check_advi_transforms, 'C19.U'), (c19_ids.check_ids, 'C19.R'),
+    steps = ((check_types_and_keys, 'C19.K'), (check_jacobians, 'C19.J'), (check_jacobian_terms_are_evaluable, 'C19.J'), (check_jacobians_are_not_stacked_on_skipped_transforms, 'C19.J'), (check_make_unconstrained, 'C19.U'), (check_fixed_parameters_stay_fixed, 'C19.U'), (check_tree_initial_values, 'C19.U'), (check_helper_objects_are_built_alike, 'C19.U'), (check_requested_values_are_handed_to_the_builders, 'C19.U'), (check_unconstraining_covers_the_configuration, 'C19.U'), (check_advi_transforms, 'C19.U'), (c19_ids.check_ids, 'C19.R'),
              (c19_flow.check_exhaustive, 'C19.E'), (c19_flow.check_pynum, 'C19.N'), (check_stale_loop_variables, 'C19.V'), (c19_ids.check_none_sizes, 'C19.G'), (c19_ids.check_reference_types, 'C19.D'), (c19_ids.check_side_channels, 'C19.O'), (c19_ids.check_first_user_is_emitted_first, 'C19.O'), (c19_ids.check_zero_versus_missing, 'C19.Z'))
     for f, rule in steps:
         try:
@@ -1631,6 +1631,39 @@ def check_helper_objects_are_built_alike(ctx, rep):
     rep.analysed['helper_object_groups'] = n
     if n < 1:
         rep.incomplete('C19.U', 'helper-objects', '', 'no function loading one specification in several branches found (create_tree_model expected)')
+
+
+def check_requested_values_are_handed_to_the_builders(ctx, rep):
+    """C19.U (addition) — a builder that takes the requested initial value as an optional parameter named like the option (`create_branch_model(…, rate_init=None)` for
+    `--rate_init`) can only honour the request where its caller passes it: every call site passes that parameter.  A call that leaves it at its default emits the builder's
+    fallback value whatever was asked for on the command line."""
+    mods = {mn: m for mn, m in ctx.prog.modules.items() if mn.startswith(CLI)}
+    option_names = {x.attr for m in mods.values() for x in ast.walk(m.tree) if isinstance(x, ast.Attribute) and isinstance(x.value, ast.Name) and x.value.id in ('arg', 'args')}
+    fns = {}
+    for mn, m in mods.items():
+        for name, fn in m.functions.items():
+            fns.setdefault(name, (m, fn))
+    n = 0
+    for name, (m, fn) in sorted(fns.items()):
+        a = fn.args
+        pos = [x.arg for x in a.args]
+        defaults = dict(zip(pos[len(pos) - len(a.defaults):], a.defaults))
+        carried = [p_ for p_, d in defaults.items() if p_ in option_names and p_.endswith('_init') and isinstance(d, ast.Constant) and d.value is None]
+        if not carried:
+            continue
+        for mn2, m2 in sorted(mods.items()):
+            for caller_name, caller in sorted(m2.functions.items()):
+                for c in ast.walk(caller):
+                    if isinstance(c, ast.Call) and isinstance(c.func, ast.Name) and c.func.id == name:
+                        for p_ in carried:
+                            n += 1
+                            passed = pos.index(p_) < len(c.args) or any(k.arg == p_ or k.arg is None for k in c.keywords)
+                            rep.check('C19.U', f"{mn2.replace('torchtree.', '')}::{caller_name}::{name}(…)::passes-{p_}", passed, where(m2, c), {'call': norm_text(c)[:80]},
+                                      f"{caller_name} calls {name}() without `{p_}`: --{p_} is accepted on the command line, but on this path the builder falls back to its "
+                                      f"default and the emitted initial value is not the one requested")
+    rep.analysed['builder_calls_with_a_requested_initial_value'] = n
+    if n < 2:
+        rep.incomplete('C19.U', 'requested-values', '', f"only {n} calls of builders taking a requested initial value found (create_branch_model expected)")
 
 
 # ---------------------------------------------------------------------------
